@@ -9,6 +9,7 @@ pub mod tsig;
 pub mod xfr;
 pub mod xfr_server;
 pub mod zone_answers;
+pub mod zone_threads;
 pub mod zonestore;
 
 use crate::core::runner::{CheckSpec, Scenario};
@@ -26,6 +27,7 @@ pub fn scenario_by_name(name: &str) -> Option<Arc<dyn Scenario>> {
         "xfr_server" => Arc::new(xfr_server::XfrServerScn),
         "tsig_e2e" => Arc::new(e2e::E2eScn { prop: "C11", name: "tsig_e2e" }),
         "xfr_e2e" => Arc::new(e2e::E2eScn { prop: "C10", name: "xfr_e2e" }),
+        "zone_threads" => Arc::new(zone_threads::ThreadsScn),
         "zone_isolation" => Arc::new(zonestore::IsolationScn),
         "zone_answers" => Arc::new(zone_answers::AnswersScn),
         _ => return None,
@@ -68,7 +70,7 @@ pub fn check_spec(property: &str) -> Option<CheckSpec> {
         "C09" => CheckSpec {
             property: "C09",
             level: "exploration",
-            scenarios: vec![(Arc::new(zonestore::IsolationScn), 20_000, 1_000_000)],
+            scenarios: vec![(Arc::new(zonestore::IsolationScn), 20_000, 1_000_000), (Arc::new(zone_threads::ThreadsScn), 8_000, 400_000)],
         },
         "C16" => CheckSpec {
             property: "C16",
